@@ -16,8 +16,9 @@
  *          to remove todo/<id> (todo_do took its `goto fail` exit); "? ? ?" = timeout / daemon gone
  *       H: the five control files are rewritten, SIGHUP is delivered while the daemon is blocked in select(), and
  *          the daemon is seen blocked in select() again (it passed the loop top)     E: files rewritten, no signal
- *   D <sender> <recip-record> <started> <chan> <delnum> <fn> <sender-sent> <recip-sent>   real main() with concurrency 1:
- *          the delivery command qmail-send wrote to the spawner pipe for one message (VERP through del_start)
+ *   D <me> <env> <locals> <ph> <vdoms> <started> <todo> <id> { C <chan> ok|badslot <fn> <sender> <recip> }   real main() with
+ *          both spawners announcing concurrency 10: the delivery commands qmail-send wrote to the spawner pipes for this
+ *          one message (del_start -> comm_write -> comm_do; VERP), channel 0 = local first, then channel 1 = remote
  * stdin cases: the same lines without the result fields. */
 #include "hcommon.h"
 #include <fcntl.h>
@@ -262,6 +263,7 @@ static pid_t launch(const files *F0, int conc, int *started) {
     for (int i = 7; i < 256; i++) close(i);
     h_exit_armed = 0;
     meok = 0; me.len = 0;               /* control.c statics dirtied by the in-process cases: as in a fresh process */
+    envnoathost.len = percenthack.len = locals.len = vdoms.len = newlocals.len = newvdoms.len = 0;   /* likewise */
     qmail_send_main();
     _exit(99);
   }
@@ -348,17 +350,25 @@ static void do_S(const files *F0, step *st, int nst) {
   finish(pid);
 }
 
+static void rec_hex(hbuf *b, const unsigned char *p, size_t n) {
+  badd(b, " ", 1);
+  if (!n) { badd(b, "-", 1); return; }
+  for (size_t i = 0; i < n; i++) { char x[3]; snprintf(x, sizeof x, "%02x", p[i]); badd(b, x, 2); }
+}
+
 /* one message through the real daemon with delivery enabled (both spawners announce concurrency 10): we are qmail-clean
  * and both spawners; every delivery command qmail-send writes (del_start -> comm_write -> comm_do) is printed and answered
- * with a success report.   D <5 files> <started> <todo> <id> { C <chan> <delnum> <fn> <sender> <recip> } */
+ * with a success report.   D <5 files> <started> <todo> <id> { C <chan> ok|badslot <fn> <sender> <recip> } (local first) */
 static void do_D(const files *F0, const hbuf *todo) {
   int started;
   pid_t pid = launch(F0, 10, &started);
   unsigned long id = next_id++;
   fputs("D", h_out); out_files(F0); fprintf(h_out, " %d ", started); h_hex(todo->p, todo->n); fprintf(h_out, " %lu", id);
   if (started) {
-    static hbuf db[2];
+    static hbuf db[2], rec[2];                             /* rec: the report text per channel (printed local first, so
+                                                              that the line does not depend on how the two pipes interleave) */
     int want = 0, got = 0, cleaned = 0;
+    hbuf_reset(&rec[0]); hbuf_reset(&rec[1]);
     { size_t b = 0; for (size_t i = 0; i < todo->n; i++) if (!todo->p[i]) { if (todo->p[b] == 'T') want++; b = i + 1; } }
     hbuf_reset(&db[0]); hbuf_reset(&db[1]); reqbuf.n = 0;
     inject(id, todo);
@@ -385,10 +395,12 @@ static void do_D(const files *F0, const hbuf *todo) {
           size_t e[3]; int k = 0;
           for (size_t i = 1; i < db[c].n && k < 3; i++) if (!db[c].p[i]) e[k++] = i;
           if (k < 3) break;
-          fprintf(h_out, " C %d %d ", c, db[c].p[0]);
-          h_hex(db[c].p + 1, e[0] - 1); fputc(' ', h_out);
-          h_hex(db[c].p + e[0] + 1, e[1] - e[0] - 1); fputc(' ', h_out);
-          h_hex(db[c].p + e[1] + 1, e[2] - e[1] - 1);
+          /* the delivery slot number depends on how fast we answer: only "is a valid slot" is reported */
+          char hd[32]; int hn = snprintf(hd, sizeof hd, " C %d %s", c, db[c].p[0] < 10 ? "ok" : "badslot");
+          badd(&rec[c], hd, hn);
+          rec_hex(&rec[c], db[c].p + 1, e[0] - 1);
+          rec_hex(&rec[c], db[c].p + e[0] + 1, e[1] - e[0] - 1);
+          rec_hex(&rec[c], db[c].p + e[1] + 1, e[2] - e[1] - 1);
           char rep[5] = { (char)db[c].p[0], 'K', 'o', 'k', 0 };
           if (write(c ? p4w : p2w, rep, 5) != 5) {}
           got++;
@@ -397,6 +409,7 @@ static void do_D(const files *F0, const hbuf *todo) {
       }
     }
     service(pid, 0, 20.0);                                 /* job closed, message removed (foop/ request), asleep again */
+    for (int c = 0; c < 2; c++) if (rec[c].n) fwrite(rec[c].p, 1, rec[c].n, h_out);
   }
   fputc('\n', h_out);
   finish(pid);
